@@ -30,6 +30,9 @@ type FailCase struct {
 	// Prime: first run the request once with the failures disarmed, so that every task has a
 	// recorded success before the failing run (the failure then hits a populated cache).
 	Prime bool `json:"prime,omitempty"`
+	// Via selects how the tasks are started: "" by name; "clean": the first task is called clean
+	// and started by `spok --clean`; "default": it is called default and started by `spok` without names.
+	Via string `json:"via,omitempty"`
 }
 
 var failNames = []string{"alpha", "bravo", "charlie", "delta"}
@@ -69,6 +72,25 @@ func genFail(t *rapid.T) FailCase {
 	c.Request = append([]string(nil), perm[:k]...)
 	c.Flags = rapid.SampledFrom(failFlagSets).Draw(t, "flags")
 	c.Prime = rapid.Bool().Draw(t, "prime")
+	switch rapid.IntRange(0, 5).Draw(t, "via") {
+	case 4:
+		c.Via = "clean"
+	case 5:
+		c.Via = "default"
+	}
+	if c.Via != "" {
+		// the implicitly selected task is the first one; it may depend on the others
+		old := c.Tasks[0].Name
+		c.Tasks[0].Name = c.Via
+		for i := range c.Tasks {
+			for j, d := range c.Tasks[i].Deps {
+				if d == old {
+					c.Tasks[i].Deps[j] = c.Via
+				}
+			}
+		}
+		c.Request = []string{c.Via}
+	}
 	return c
 }
 
@@ -123,10 +145,17 @@ func execFail(s *ev.Shard, b *sandbox.Box, c FailCase) *rp.Fail {
 	for _, t := range c.Tasks {
 		size += len(t.Cmds)
 	}
-	args := append(append([]string(nil), c.Flags...), c.Request...)
+	request := c.Request
+	switch c.Via {
+	case "clean":
+		request = []string{"--clean"}
+	case "default":
+		request = nil
+	}
+	args := append(append([]string(nil), c.Flags...), request...)
 	if c.Prime {
 		// every command succeeds while the failures are disarmed
-		if r0 := b.Run(b.Proj, env, runTimeout, c.Request...); r0.Exit != 0 {
+		if r0 := b.Run(b.Proj, env, runTimeout, request...); r0.Exit != 0 {
 			return &rp.Fail{Sig: "harness", Msg: "priming run failed: " + sandbox.Strip(r0.Stderr)}
 		}
 		_ = os.Remove(logPath)
@@ -159,7 +188,7 @@ func execFail(s *ev.Shard, b *sandbox.Box, c FailCase) *rp.Fail {
 	}
 	// second, unforced plain run of the same request without touching any file
 	_ = os.Remove(logPath)
-	r2 := b.Run(b.Proj, env, runTimeout, c.Request...)
+	r2 := b.Run(b.Proj, env, runTimeout, request...)
 	if r2.TimedOut {
 		return &rp.Fail{Sig: "harness", Msg: "spok timed out"}
 	}
@@ -191,7 +220,7 @@ func execFail(s *ev.Shard, b *sandbox.Box, c FailCase) *rp.Fail {
 			}
 		}
 		if nt && len(F) > 0 {
-			s.NonTrivial(src + strings.Join(args, " ") + fmt.Sprint(c.Prime))
+			s.NonTrivial(src + strings.Join(args, " ") + fmt.Sprint(c.Prime, c.Via))
 		}
 		if len(F) == 0 {
 			s.Class("failing_command_not_reached")
@@ -201,6 +230,9 @@ func execFail(s *ev.Shard, b *sandbox.Box, c FailCase) *rp.Fail {
 		s.Class("flags_" + strings.Join(c.Flags, ""))
 		if c.Prime {
 			s.Class("failure_on_populated_cache")
+		}
+		if c.Via != "" {
+			s.Class("started_via_" + c.Via)
 		}
 	}
 	return nil
